@@ -485,8 +485,9 @@ func drainChannel(c chan DoneWithState) {
 func (s *Server) Clear() {
 	// we do not drain InitDoneChannel, because Init is only done once during rapid lifetime
 
-	drainChannel(s.InvokeDoneChan)
+	// release first: once the reservation is gone no further DONE can be posted for it
 	s.Release()
+	drainChannel(s.InvokeDoneChan)
 }
 
 func (s *Server) SendRuntimeReady() error {
@@ -571,13 +572,13 @@ func (s *Server) FastInvoke(w http.ResponseWriter, i *interop.Invoke, direct boo
 				s.trySendDefaultErrorResponse(invokeFailure.DefaultErrorResponse)
 			}
 			doneFail := doneFailFromInvokeFailure(invokeFailure)
-			s.InvokeDoneChan <- DoneWithState{
+			s.sendInvokeDone(invokeID, DoneWithState{
 				Done:  &interop.Done{ErrorType: doneFail.ErrorType, Meta: doneFail.Meta},
 				State: s.InternalStateGetter(),
-			}
+			})
 		} else {
 			done := doneFromInvokeSuccess(invokeSuccess)
-			s.InvokeDoneChan <- DoneWithState{Done: done, State: s.InternalStateGetter()}
+			s.sendInvokeDone(invokeID, DoneWithState{Done: done, State: s.InternalStateGetter()})
 		}
 	}()
 
@@ -590,6 +591,19 @@ func (s *Server) FastInvoke(w http.ResponseWriter, i *interop.Invoke, direct boo
 	}
 
 	return nil
+}
+
+// sendInvokeDone posts the DONE of invocation invokeID unless its reservation is already gone
+// (released by a reset that raced with the end of the invocation): a DONE posted after the
+// reset has cleared the server would be taken for the outcome of the following invocation.
+func (s *Server) sendInvokeDone(invokeID string, done DoneWithState) {
+	s.mutex.Lock()
+	defer s.mutex.Unlock()
+	if s.invokeCtx == nil || s.invokeCtx.Token.InvokeID != invokeID {
+		log.Warnf("Discard DONE of %s: invocation no longer reserved", invokeID)
+		return
+	}
+	s.InvokeDoneChan <- done
 }
 
 func (s *Server) setCachedInitErrorResponse(errResp *interop.ErrorInvokeResponse) {
